@@ -213,7 +213,8 @@ def tlc(spec, cfg_text, workdir, env=None, workers=1, extra=(), timeout=3600, he
     cfg = os.path.join(d, 'run.cfg')
     with open(cfg, 'w') as f:
         f.write(cfg_text)
-    cmd = ['java', '-XX:+UseParallelGC', '-Xmx' + heap, '-Xss64m', '-cp', TLA_CP, 'tlc2.TLC',
+    os.makedirs(os.path.join(d, 'tmp'), exist_ok=True)   # TLC unpacks its standard modules into java.io.tmpdir on every run
+    cmd = ['java', '-XX:+UseParallelGC', '-Xmx' + heap, '-Xss64m', '-Djava.io.tmpdir=' + os.path.join(d, 'tmp'), '-cp', TLA_CP, 'tlc2.TLC',
            '-workers', str(workers), '-metadir', os.path.join(d, 'meta'), '-noGenerateSpecTE',
            '-config', 'run.cfg'] + list(extra) + [spec]
     e = dict(os.environ)
